@@ -10,6 +10,7 @@ import CasModel.Wire
 import CasModel.Sim
 import CasModel.Conc
 import CasModel.Fault
+import CasModel.OrphanOps
 /-
   Model driver: one request per input line, one response line per request.
   The functions called here are the ones the theorems are about; this file only parses and prints.
@@ -471,6 +472,34 @@ def storeStepNormal (w : World) (toks : List String) : Option (World × String) 
       let (w', o) := w.exec evs id
       some (w', withOutcome armed o s!"deleted={del} skipped={skip} invalid={ninv} staging={st} errors=0")
     | _, _ => some (w, "nostats")
+  | ["delete_orphan", h] => do
+    let h ← parseHex h
+    match w.handle, w.scan with
+    | some m, some sc =>
+      let (evs, r) := deleteOrphanScript m sc w.disk h
+      let (w', o) := w.exec evs id
+      pure (w', withOutcome armed o (if r then "true" else "false"))
+    | _, _ => pure (w, "nostats")
+  | ["quarantine"] =>
+    match w.handle, w.scan with
+    | some m, some sc =>
+      let (evs, q, sk) := quarantineScript m sc w.disk
+      let (w', o) := w.exec evs id
+      some (w', withOutcome armed o s!"quarantined={q} skipped={sk} errors=0")
+    | _, _ => some (w, "nostats")
+  | ["idxq", k] => do
+    let k ← parseHex k
+    match w.handle with
+    | none => pure (w, "nohandle")
+    | some m =>
+      let item := kLookup m.idx.map k
+      let it := match item with
+        | some i => s!"{toHexString i.hash}:{i.size}"
+        | none => "notfound"
+      let known := match item with
+        | some i => (rcGet m.idx.rc i.hash).isSome
+        | none => false
+      pure (w, s!"contains={item.isSome} item={it} empty={m.idx.map.isEmpty} len={m.idx.map.length} hashknown={known} keys={m.idx.map.length}")
   | ["traceset"] =>
     let l := (w.trace.filterMap evText).toArray.qsort (· < ·) |>.toList
     some ({ w with trace := [] }, if l.isEmpty then "_" else ";".intercalate l)
